@@ -334,6 +334,38 @@ theorem motion_keep_iff_lens (lens : List Rat) (ang : Nat → Nat → Rat) (d a 
   exact motion_keep_iff (accDist lens) ang d a ids h h0 i p hi0
     (by unfold accDist; rw [accFrom_length]; omega) hp
 
+/-- F18: over the rationals the loop that subtracts accumulated path lengths (before the repair) and the loop that
+accumulates the path since the last kept pose (after it) select the same poses (`(accFrom s steps).tail` = the
+accumulated lengths of the poses after the one at path length `s`) -/
+theorem motionGo_acc_eq_steps (ang : Nat → Nat → Rat) (d a : Rat) (steps : List Rat) (s pd : Rat) (i pid : Nat) :
+    motionGo ang d a (accFrom s steps).tail i pid pd = motionGoSteps ang d a steps i pid (s - pd) := by
+  induction steps generalizing s pd i pid with
+  | nil => simp [accFrom, motionGo, motionGoSteps]
+  | cons l r ih =>
+    have htl : (accFrom s (l :: r)).tail = (s + l) :: (accFrom (s + l) r).tail := by
+      cases r <;> simp [accFrom]
+    have e1 : s + l - pd = s - pd + l := by ring
+    have e2 : s + l - (s + l) = 0 := by ring
+    rw [htl]
+    unfold motionGo motionGoSteps
+    rw [ih (s + l) (s + l) (i + 1) i, ih (s + l) pd (i + 1) pid, e1, e2]
+
+/-- F18: in exact arithmetic, the motion filter that takes differences of the accumulated path length (what
+`filter_by_motion` did before the repair) and the one that accumulates the path since the last kept pose (what it does
+now) are the same function - the defect was float64 rounding of the accumulated length only. -/
+theorem motionFilter_steps_formulation_agrees (lens : List Rat) (ang : Nat → Nat → Rat) (d a : Rat) :
+    motionFilterSteps lens ang d a = motionFilter lens ang d a := by
+  unfold motionFilterSteps motionFilter motionFilterAcc accDist
+  rw [accFrom_length, motionGo_acc_eq_steps, sub_self]
+
+/-- `motion_keep_iff_lens` for the formulation the code has since F18 -/
+theorem motion_keep_iff_lens_steps (lens : List Rat) (ang : Nat → Nat → Rat) (d a : Rat) (ids : List Nat)
+    (h : motionFilterSteps lens ang d a = .ok ids)
+    (i p : Nat) (hi0 : 0 < i) (hi : i ≤ lens.length) (hp : IsLastKeptBefore ids p i) :
+    i ∈ ids ↔ (d ≤ (accDist lens).getD i 0 - (accDist lens).getD p 0 ∨ a ≤ ang p i) := by
+  rw [motionFilter_steps_formulation_agrees] at h
+  exact motion_keep_iff_lens lens ang d a ids h i p hi0 hi hp
+
 /-! ### time cropping -/
 
 /-- **time cropping keeps exactly the poses with start ≤ t ≤ end** (`None` = first / last stamp) -/
@@ -557,6 +589,8 @@ example : downsample [10, 11, 12, 13, 14, 15, 16] 3 = .ok [10, 13, 16] := by dec
 example : motionFilter [5, 5, 5, 0, 5] (fun _ _ => 0) 10 1 = .ok [0, 2, 5] := by decide +kernel
 example : motionFilter [1, 1, 1] (fun j i => if j = 0 ∧ i = 2 then 2 else 0) 10 2 = .ok [0, 2] := by
   decide +kernel
+example : motionFilterSteps [3, 4, 5] (fun _ _ => 0) 7 1 = .ok [0, 2] := by decide +kernel
+example : motionFilterSteps [5, 5, 5, 0, 5] (fun _ _ => 0) 10 1 = .ok [0, 2, 5] := by decide +kernel
 example : IsLastKeptBefore [0, 2, 5] 2 4 := ⟨by decide, by decide, by decide⟩
 example : cropIds [0, 1, 2, 3, 4] (some 1) (some 3) = .ok [1, 2, 3] := by decide +kernel
 example : cropIds [0, 1, 2, 3, 4] none (some 2) = .ok [0, 1, 2] := by decide +kernel
